@@ -52,6 +52,15 @@ def run(rep, facts):
         n_rows += 1
         ret = ir.peel(r.ret)
         done = cv(agg_field(ret, 'done'))
+        if done is None and agg_field(ret, 'done') is not None:
+            # `done: finished || stuck` with the flags kept as values: the value on this path is what the path's own tests of the same
+            # expression decided
+            de = ir.peel(agg_field(ret, 'done'))
+            for (ce, clab, cn) in r.conds:
+                if ir.peel(ce) == de and isinstance(clab, tuple):
+                    tv = (clab[1] != 0) if clab[0] == 'case' else (True if clab[0] == 'otherwise' and 0 in clab[1] else None)
+                    if tv is not None:
+                        done = int(tv)
         pos_move = position_of_call(r, RP + "::move_input")
         pos_drive = position_of_call(r, "replace_with::replace_with_and_return")
         if pos_drive is None:
